@@ -63,3 +63,17 @@ Definition chain_pR (inds : list (bool * bool)) : R :=
   end.
 Definition multi_pR (steps : list (list bool)) : R :=
   fold_left (fun p inds => fold_left emaR inds p) steps 0%R.
+
+(* the same recurrence over Q, evaluated by the correspondence check next to the bit-exact f32 one
+   (Proofs/FindEps-style link: Q2R (chain_pQ l) = chain_pR l, Properties/C13.v) *)
+Definition emaQ (p : Q) (accepted : bool) : Q :=
+  Qred ((1 - (1 # 100)) * p + (1 # 100) * (if accepted then 1 else 0))%Q.
+Definition chain_pQ (inds : list (bool * bool)) : Q :=
+  match inds with
+  | [] => (-1)%Q
+  | (f, a) :: t => fold_left (fun p fa => emaQ p (snd fa)) t (emaQ (if f then 1 else 0)%Q a)
+  end.
+Definition multi_pQ (steps : list (list bool)) : Q :=
+  fold_left (fun p inds => fold_left emaQ inds p) steps 0%Q.
+Definition chain_p_q (inds : list (Z * Z)) : list Z := qout (chain_pQ (map (fun fa => (zb (fst fa), zb (snd fa))) inds)).
+Definition multi_p_q (steps : list (list Z)) : list Z := qout (multi_pQ (map (map zb) steps)).
